@@ -110,6 +110,48 @@ def judge(ctx, c, o, notes):
     return bad
 
 
+def strace_pass(ctx, cases, root):
+    """thorough tier: the directory cells with planted prover artifacts once more under `strace -e trace=openat`;
+    nothing named *prover.bin may be opened between the harness' begin/end markers of a cell"""
+    import os
+    import re
+    import shutil
+    import subprocess
+    if not shutil.which("strace"):
+        ctx.cov["strace"] = "strace not available"
+        return
+    sub = [dict(c, metered=1) for c in cases if c["extras"]]
+    inp, out, tr = ctx.workdir / "strace_in.ndjson", ctx.workdir / "strace_out.ndjson", ctx.workdir / "strace.txt"
+    inp.write_text("\n".join(json.dumps(c) for c in sub) + "\n")
+    env = dict(os.environ, VERIF_SEED=str(ctx.seed), VH_ART_MARKS="1")
+    cmd = ["strace", "-f", "-qq", "-e", "trace=open,openat", "-o", str(tr),
+           str(core.VH.parent / "vh-art"), "loaders-replay", str(root), str(inp), str(out)]
+    try:
+        p = subprocess.run(cmd, cwd=core.ROOT, env=env, stdout=subprocess.PIPE, stderr=subprocess.PIPE, text=True, timeout=3600)
+    except subprocess.TimeoutExpired:
+        raise core.ToolError("strace pass timed out")
+    if p.returncode != 0 or not tr.exists():
+        ctx.cov["strace"] = f"strace could not run here (rc={p.returncode}): {p.stderr[-200:]}"
+        return
+    cur, windows, opened = None, 0, 0
+    for line in tr.read_text(errors="replace").splitlines():
+        m = re.search(r'"/vh-art-mark/(begin|end)-(\d+)"', line)
+        if m:
+            cur = int(m.group(2)) if m.group(1) == "begin" else None
+            windows += m.group(1) == "begin"
+            continue
+        if cur is not None and "open" in line:
+            opened += 1
+            if re.search(r'prover\.bin"', line):
+                c = sub[cur]
+                ctx.violation(f"{describe(c)}: opened a prover artifact during the call: {line.strip()[:160]}",
+                              {"engine": "loaders-replay", "cell": c, "strace": line.strip()[:300]})
+    if windows != len(sub):
+        raise core.ToolError(f"strace pass: {windows} marked windows for {len(sub)} cells")
+    ctx.cov["strace"] = {"cells": len(sub), "opens_inside_calls": opened}
+    ctx.cov["evaluations"] += len(sub)
+
+
 @register("C17")
 def check(ctx):
     core.build_harness(ctx, "vh-art")
@@ -187,6 +229,8 @@ def check(ctx):
             raise core.ToolError(f"vacuity: loaders that did not both accept and reject: {silent}")
         if notes.get("no_rchar") or notes.get("no_minflt"):
             raise core.ToolError("the read / page-touch meters are unavailable (/proc/self/io, /proc/self/stat)")
+    if rep is None and not ctx.quick and not ctx.violations:
+        strace_pass(ctx, cases, root)
     ctx.cov["distinct_nontrivial"] = len(distinct)
     ctx.cov["per_loader"] = per_loader
     ctx.cov["notes"] = notes
